@@ -519,6 +519,10 @@ class ScrollBar(WidgetDecoration[WrappedWidget]):
         ow = self._original_widget
         ow_base = self.scrolling_base_widget
 
+        if ow_size[0] < 1:
+            # No room for the scrollbar and at least one column of the wrapped widget
+            return render_no_scrollbar()
+
         # Use hasattr instead of protocol: hasattr will return False in case of getattr raise AttributeError
         # Use __length_hint__ first since it's less resource intensive
         use_relative = (
